@@ -112,6 +112,11 @@ def run_unit(seed=None, unit=None, tier="quick", stats=None, prop="C06"):
         early = bool(st.draw(2, "w2_early"))
         capacity = (100, 1, 2, 3)[st.draw(4, "w2_cap")]
         close_after = st.weighted((3, 3, 2, 1, 1), "w2_close_after")
+        if spec.itemfail_motif and r % 2 == 0:
+            # the motif needs early execution and room in the queue; half of its schedules get both
+            early = True
+            capacity = 100
+            close_after = max(close_after, 2)
         world = World2(sim, spec, early, capacity)
         ctx = CancelCtx(world)
         out = {"waiting": None, "payloads": 0, "closed": False, "ended": False, "error": None}
@@ -170,6 +175,12 @@ def run_unit(seed=None, unit=None, tier="quick", stats=None, prop="C06"):
             bump(stats, "probes", "w2_cancelled_externals",
                  sum(1 for e in sim.externals if e.state == "cancelled"))
             bump(stats, "faults", "stop:w2_aclose", 1 if out["closed"] else 0)
+            bump(stats, "faults", "w2_stream_failed_by_item",
+                 sum(1 for s_ in spec.all_streams if s_.fail_by_item and s_.queue is not None))
+            bump(stats, "probes", "w2_items_pushed_behind_failing_item", world.pushed_behind_failure)
+            bump(stats, "probes", "w2_slow_item_cancellations", world.slow_cancels)
+            bump(stats, "probes", "w2_hanging_items_cancelled",
+                 sum(1 for e in sim.externals if e.hanging and e.state == "cancelled"))
         vs = []
         fp = {"world": "W2", "early": early, "closed_before_first_pull": close_after == 0}
         if status == "stepcap":
@@ -197,6 +208,19 @@ def run_unit(seed=None, unit=None, tier="quick", stats=None, prop="C06"):
                                                               stream_announced=announced),
                                     {"tasks": [getattr(t.get_coro(), "__qualname__", "?")
                                                for t in left][:6]}))
+            # the abort callback (closing the source) runs at most once, and exactly once for a
+            # source that was in use and did not finish by itself
+            if out["ended"] or out["closed"]:
+                for ss in spec.all_streams:
+                    if ss.abort_calls > 1:
+                        vs.append(Violation(prop, "source_closed_twice", dict(fp, source="w2"),
+                                            {"stream": ss.label, "calls": ss.abort_calls}))
+                        break
+                    if ss.started and not ss.finished and ss.abort_calls == 0:
+                        vs.append(Violation(prop, "source_not_closed", dict(
+                            fp, source="w2", stream_announced=ss.label in ann_labels,
+                            provenance=_provenance(spec, world, ss)), {"stream": ss.label}))
+                        break
             # with early execution everything primed is tracked; without it only started work runs
             pend = [e.label for e in sim.externals if e.kind != "gate" and e.is_pending()]
             if pend and (out["closed"] and close_after > 0 or out["ended"]) and not left:
